@@ -82,8 +82,18 @@ theorem lyotBackward_parity (stop : List K) (Pb : List (List K)) (m1 : List K) (
     parity (lyotBackward stop Pb m1 Pf) = some false := rfl
 theorem sandwich_parity (Pb : List (List K)) (m : List K) (Pf : List (List K)) :
     parity (sandwich Pb m Pf) = some false := rfl
-theorem fibreNuller_parity (rows P : List (List K)) (apod : List K) :
-    parity (fibreNuller rows P apod) = some true := rfl
+theorem optMul_parity (o : Option (List K)) : parity (optMul o) = some false := by
+  cases o <;> rfl
+theorem fibreNuller_parity (rows P : List (List K)) (apod : Option (List K)) :
+    parity (fibreNuller rows P apod) = some true := by
+  simp [fibreNuller, fibreForward, parity, optMul_parity]
+theorem fibreNullerBackward_parity (apod : Option (List K)) (Pb B : List (List K)) :
+    parity (fibreNullerBackward apod Pb B) = some false := by
+  simp [fibreNullerBackward, fibreBackward, parity, optMul_parity]
+theorem fibreModes_parity (Mc Mh : List (List K)) (ph w : List K) :
+    parity (fibreModes Mc ph Mh w) = some false := rfl
+theorem lyotCore_parity (Pb : List (List K)) (m1 : List K) (Pf : List (List K)) :
+    parity (lyotCore Pb m1 Pf) = some false := rfl
 
 theorem multiscale_parity (F0 : List (List K)) (levels : List (List (List K) × List K × List (List K))) :
     parity (multiscale F0 levels) = some false := by
@@ -92,6 +102,16 @@ theorem multiscale_parity (F0 : List (List K)) (levels : List (List (List K) × 
   | cons l rest ih =>
     obtain ⟨Pb, m, Pf⟩ := l
     simp [multiscale, parity, ih, sandwich]
+
+theorem multiscaleForward_parity (stop : Option (List K)) (F0 : List (List K))
+    (levels : List (List (List K) × List K × List (List K))) :
+    parity (multiscaleForward stop F0 levels) = some false := by
+  simp [multiscaleForward, parity, optMul_parity, multiscale_parity]
+
+theorem multiscaleBackward_parity (stop : Option (List K)) (F0 : List (List K))
+    (levels : List (List (List K) × List K × List (List K))) :
+    parity (multiscaleBackward stop F0 levels) = some false := by
+  simp [multiscaleBackward, parity, optMul_parity, multiscale_parity]
 
 /-- An optical system of linear parts is linear; each conjugate-linear part flips the parity. -/
 theorem system_parity_linear (ts : List (Term K)) (h : ∀ t ∈ ts, parity t = some false) :
@@ -103,35 +123,89 @@ theorem system_parity_linear (ts : List (Term K)) (h : ∀ t ∈ ts, parity t = 
     have h2 := ih (fun u hu => h u (by simp [hu]))
     simp [system, parity, h1, h2]
 
-/-- Hence: every linear family is linear … -/
-theorem family_linear (hc : IsConj cj) (a : K) (x y : List K) (h : x.length = y.length)
-    (stop m1 m c apod : List K) (Pb Pf T Ti A F0 : List (List K))
-    (levels : List (List (List K) × List K × List (List K))) :
-    ∀ t ∈ [pointwise m, dense A, fibreBackward A, projection T c Ti, lyotForward stop Pb m1 Pf,
-            lyotBackward stop Pb m1 Pf, sandwich Pb m Pf, multiscale F0 levels],
-      denote cj t (vadd (smul a x) y) = vadd (smul a (denote cj t x)) (denote cj t y) := by
+theorem systemDense_parity (parts : List (List (List K))) : parity (systemDense parts) = some false := by
+  apply system_parity_linear
   intro t ht
-  apply denote_linear hc t _ a x y h
-  simp only [List.mem_cons, List.mem_nil_iff, or_false] at ht
-  rcases ht with rfl | rfl | rfl | rfl | rfl | rfl | rfl | rfl
-  · rfl
-  · rfl
-  · rfl
-  · rfl
-  · rfl
-  · rfl
-  · rfl
-  · exact multiscale_parity F0 levels
+  simp only [List.mem_map] at ht
+  obtain ⟨A, _, rfl⟩ := ht
+  rfl
+
+/-- **Every term the driver op `C06 denote-family` can build has the parity its family declares**
+(`Family.conj`: conjugate-linear for fibre injection and the nullers' forward, linear for the rest) —
+for every family of the table, every number, size and value of the arguments (any number of
+multi-scale levels, any number of system parts, with or without stop / apodizer). -/
+theorem family_parity (f : Family) (args : List (Arg K)) (t : Term K) (h : familyTerm f args = some t) :
+    parity t = some f.conj := by
+  unfold familyTerm at h
+  split at h
+  all_goals first
+    | (cases h; rfl)
+    | (simp at h)
+    | skip
+  · -- multiscaleForward
+    split at h
+    · cases h; exact multiscaleForward_parity _ _ _
+    · simp at h
+  · split at h
+    · cases h; exact multiscaleBackward_parity _ _ _
+    · simp at h
+  · split at h
+    · cases h; exact systemDense_parity _
+    · simp at h
+  · split at h
+    · cases h; exact fibreNuller_parity _ _ _
+    · simp at h
+  · split at h
+    · cases h; exact fibreNullerBackward_parity _ _ _
+    · simp at h
+
+/-- **Hence every family is (conjugate-)linear as executed**: for the term `t` that `familyTerm`
+builds — the very term the driver evaluates and the harness compares with the element's output on
+`E1`, `E2` and `a·E1+E2` — `denote t (a•x + y) = a'•denote t x + denote t y` with `a' = a`, or
+`a' = conj a` exactly for the families in which the code conjugates the field. -/
+theorem family_semilinear (hc : IsConj cj) (f : Family) (args : List (Arg K)) (t : Term K)
+    (h : familyTerm f args = some t) (a : K) (x y : List K) (hl : x.length = y.length) :
+    denote cj t (vadd (smul a x) y)
+      = vadd (smul (if f.conj then cj a else a) (denote cj t x)) (denote cj t y) :=
+  denote_semilinear_all hc t f.conj (family_parity f args t h) a x y hl
+
+/-- the linear families … -/
+theorem family_linear (hc : IsConj cj) (f : Family) (hf : f.conj = false) (args : List (Arg K)) (t : Term K)
+    (h : familyTerm f args = some t) (a : K) (x y : List K) (hl : x.length = y.length) :
+    denote cj t (vadd (smul a x) y) = vadd (smul a (denote cj t x)) (denote cj t y) := by
+  have := family_semilinear hc f args t h a x y hl
+  simpa [hf] using this
 
 /-- … and fibre injection (alone or behind an apodizer and a propagator) is conjugate-linear. -/
-theorem family_conj_linear (hc : IsConj cj) (a : K) (x y : List K) (h : x.length = y.length)
-    (apod : List K) (rows P : List (List K)) :
-    ∀ t ∈ [fibreForward rows, fibreNuller rows P apod],
-      denote cj t (vadd (smul a x) y) = vadd (smul (cj a) (denote cj t x)) (denote cj t y) := by
-  intro t ht
-  apply conj_linear hc t _ a x y h
-  simp only [List.mem_cons, List.mem_nil_iff, or_false] at ht
-  rcases ht with rfl | rfl <;> rfl
+theorem family_conj_linear (hc : IsConj cj) (f : Family) (hf : f.conj = true) (args : List (Arg K)) (t : Term K)
+    (h : familyTerm f args = some t) (a : K) (x y : List K) (hl : x.length = y.length) :
+    denote cj t (vadd (smul a x) y) = vadd (smul (cj a) (denote cj t x)) (denote cj t y) := by
+  have := family_semilinear hc f args t h a x y hl
+  simpa [hf] using this
+
+/-- the hypotheses are satisfiable: each family accepts some argument list (here: three multi-scale
+levels' worth of empty matrices, a two-part system, a nuller without apodizer). -/
+example : ∃ t : Term ℤ, familyTerm .multiscaleForward [.none, .mat [], .mat [], .vec [], .mat []] = some t := ⟨_, rfl⟩
+example : ∃ t : Term ℤ, familyTerm .system [.mat [[1]], .mat [[2]]] = some t := ⟨_, rfl⟩
+example : ∃ t : Term ℤ, familyTerm .fibreNuller [.mat [[1]], .mat [[1]], .none] = some t := ⟨_, rfl⟩
+example : ∀ f : Family, ∃ args : List (Arg ℤ), (familyTerm f args).isSome = true := by
+  intro f
+  cases f
+  · exact ⟨[.vec []], rfl⟩
+  · exact ⟨[.mat []], rfl⟩
+  · exact ⟨[.mat []], rfl⟩
+  · exact ⟨[.mat []], rfl⟩
+  · exact ⟨[.mat [], .vec [], .mat []], rfl⟩
+  · exact ⟨[.mat [], .vec [], .mat []], rfl⟩
+  · exact ⟨[.vec [], .mat [], .vec [], .mat []], rfl⟩
+  · exact ⟨[.vec [], .mat [], .vec [], .mat []], rfl⟩
+  · exact ⟨[.mat [], .vec [], .mat []], rfl⟩
+  · exact ⟨[.none, .mat []], rfl⟩
+  · exact ⟨[.none, .mat []], rfl⟩
+  · exact ⟨[], rfl⟩
+  · exact ⟨[.mat [], .mat [], .none], rfl⟩
+  · exact ⟨[.none, .mat [], .mat []], rfl⟩
+  · exact ⟨[.mat [], .vec [], .mat [], .vec []], rfl⟩
 
 end Linear
 
